@@ -22,7 +22,7 @@ Definition exkind_eqb (a b : exkind) : bool :=
   | KFail, KFail | KBreak, KBreak | KContinue, KContinue | KReturn, KReturn
   | KArity, KArity | KRange, KRange | KNoKey, KNoKey | KBadValue, KBadValue
   | KConcat, KConcat | KBadOpt, KBadOpt | KArgType, KArgType | KPipe, KPipe
-  | KOther, KOther | KNil, KNil => true
+  | KOther, KOther => true
   | _, _ => false
   end.
 
